@@ -4,7 +4,7 @@ Loop-progress rules on the read/take call graph: the loop variant is the query's
 arguments (the per-writer read pointer map and the latest-instant), so the rule covers the
 reliable and the best-effort branch alike.
 """
-from rdv.core import (CheckBroken, Origins, Pos, call_matches, callee_res, natural_loops, norm_path, strip_generics,
+from rdv.core import (CheckBroken, Origins, Pos, call_matches, callee_res, natural_loops, norm_path, primary_edges, strip_generics,
                       switch_edges, term_has, term_leaves, term_str)
 
 CONFIGS = ['default']
@@ -251,6 +251,7 @@ def run(rep, facts, tier):
 
     # ------------------------------------------------------------ R09.5 content-dependent panics on the read path
     rule_09_5(rep, fx, eps)
+    rule_09_6(rep, fx)
 
 
 # hazard key -> (class, reason); sites on the pinned tree, each read and judged
@@ -302,3 +303,39 @@ def rule_09_5(rep, fx, eps):
             h['kind'], h['callee'], h['term']), h['where'])
     rep.coverage_extra['read_path_functions'] = len(tt.reach)
     rep.floor('R09.5', len(seen), 4, 'hazard sites on the read path')
+
+
+def rule_09_6(rep, fx):
+    """A change taken out of the receive cache (the read pointers have moved past it) must reach the DataReader's own cache: nothing may sit between the two where an
+    error for a *later* change can discard it."""
+    rep.rule('R09.6', 'consume implies deliver: wherever a DataReader pulls changes with SimpleDataReader::try_take_one*, every path from the Some(change) result to a return or to the '
+                      'next pull passes the hand-over into the local sample cache (fill_from_deserialized_cache_change / add_sample): an undecodable later change cannot take '
+                      'well-formed earlier ones with it')
+    n = 0
+    for b in fx.bodies:
+        if not (b.key.startswith('dds::with_key::datareader::') or b.key.startswith('dds::no_key::datareader::')):
+            continue
+        pulls = [(bb, t) for bb, t in b.calls() if strip_generics(callee_res(t)).endswith(('SimpleDataReader::try_take_one', 'SimpleDataReader::try_take_one_with'))]
+        if not pulls:
+            continue
+        rep.analysed(b)
+        og = Origins(b, summaries=False)
+        P = Pos(b)
+        edges = list(switch_edges(b, fx, og))
+        if b.kind == 'closure':
+            n += 1
+            rep.violation('R09.6', '%s/pull-in-closure' % b.key, '%s pulls changes from the SimpleDataReader inside a closure (e.g. an iterator adaptor): the taken changes are buffered outside the '
+                          'sample cache and are lost if the adaptor stops on an error' % b.key, b.where(pulls[0][0]))
+            continue
+        sinks = [(bb, 'term') for bb, t in b.calls() if strip_generics(callee_res(t)).endswith(('fill_from_deserialized_cache_change', 'DataSampleCache::add_sample'))]
+        for pb, t in pulls:
+            n += 1
+            some = [(s_, t_) for s_, t_, cond, lab in primary_edges(b, edges) if lab == 'Some' and cond[0] == 'discr' and term_has(cond, lambda x: x[0] == 'call' and len(x) > 3 and x[3] == pb)]
+            ok = bool(some) and bool(sinks)
+            for s_, t_ in some:
+                for goal in [(r, 'term') for r in b.return_blocks()] + [(pb, 'term')]:
+                    if P.can_reach((t_, 0), goal, avoid_pos=sinks):
+                        ok = False
+            rep.check(ok, 'R09.6', '%s/pull#%d' % (b.key, n), 'each pulled change is handed to the sample cache before the next pull / return',
+                      '%s can pull a change out of the receive cache and return (or pull again) without storing it in the sample cache: the change is consumed but never delivered' % b.key, b.where(pb))
+    rep.floor('R09.6', n, 1, 'places where a DataReader pulls changes from its SimpleDataReader')
